@@ -117,6 +117,7 @@ type Result struct {
 	Delivs  []Deliv        `json:"delivs"`
 	Fails24 []string       `json:"f24"`
 	Fails25 []string       `json:"f25"`
+	Fails26 []string       `json:"f26"`
 	Count   map[string]int `json:"count"`
 	Detach  bool           `json:"detach"`  // the wallet detached at least one block
 	Restore bool           `json:"restore"` // ... and a wallet-owned output was un-spent by it
@@ -835,6 +836,17 @@ func (g *world) corpus(name string) {
 		mk := e.NewTx([]cl.Out{u.out}, []cl.OutSpec{{Amount: u.out.Amount() - cl.DefaultFee, Program: e.Progs[PA2].Code, Vote: e.VoteTo}}, 0)
 		a17 := g.addBlock(tip, []*types.Tx{mk}, POpTrue, false)
 		empty(a17, 4)
+	case "corpus-pool-spent-later":
+		// the transaction paying the wallet at A17 goes through the node's pool; the wallet attaches A17
+		// BEFORE it hears of the removal (handled after A18); A19 spends the output: from then on nothing
+		// may offer or reserve it, with or without useUnconfirmed
+		u := split(0)
+		pay := e.NewTx([]cl.Out{u.out}, []cl.OutSpec{{Amount: u.out.Amount() - cl.DefaultFee, Program: e.Progs[PA2].Code}}, 0)
+		a17 := g.addBlock(tip, []*types.Tx{pay}, POpTrue, false)
+		a18 := empty(a17, 1)
+		spend := e.NewTx([]cl.Out{{Tx: pay, Pos: 0}}, []cl.OutSpec{{Amount: pay.Outputs[0].Amount - cl.DefaultFee}}, 0)
+		a19 := g.addBlock(a18, []*types.Tx{spend}, POpTrue, false)
+		empty(a19, 1)
 	default:
 		panic("unknown corpus case " + name)
 	}
@@ -933,11 +945,29 @@ func RunCase(e *Env, c *Case, base string) (*Result, error) {
 	}
 	fail24 := func(f string, a ...interface{}) { res.Fails24 = append(res.Fails24, fmt.Sprintf(f, a...)) }
 	fail25 := func(f string, a ...interface{}) { res.Fails25 = append(res.Fails25, fmt.Sprintf(f, a...)) }
+	fail26 := func(f string, a ...interface{}) { res.Fails26 = append(res.Fails26, fmt.Sprintf(f, a...)) }
+	// which transaction of the case creates an output id (to ask the node's pool about it)
+	// (two transactions that spend the same inputs create the same output id at a position where they
+	// pay the same amount to the same program: an id can have several creators)
+	creator := map[bc.Hash][]*types.Tx{}
+	for _, gb := range g.blocks {
+		for _, tx := range gb.info.Block.Transactions {
+			for _, rid := range tx.ResultIds {
+				dup := false
+				for _, t := range creator[*rid] {
+					dup = dup || t.ID == tx.ID
+				}
+				if !dup {
+					creator[*rid] = append(creator[*rid], tx)
+				}
+			}
+		}
+	}
 	// the scheduler's choices of the "pool" stream (which transactions reach the pool before their
 	// block, how long the wallet's pool message loop lags behind) come from a second stream of the seed
 	r2 := NewRng(c.Seed ^ 0x5bd1e995)
-	poolKind := c.Kind == "pool" || c.Kind == "corpus-pool-vote-lag"
-	scripted := c.Kind == "corpus-pool-vote-lag"
+	lagUntil, scripted := map[string]int{"corpus-pool-vote-lag": 3, "corpus-pool-spent-later": 1}[c.Kind]
+	poolKind := c.Kind == "pool" || scripted
 	forward := func(k int) error {
 		n, err := wn.ForwardPoolMsgs(k, patience)
 		g.cnt["pool:messages-handled-by-wallet"] += n
@@ -1048,7 +1078,7 @@ func RunCase(e *Env, c *Case, base string) (*Result, error) {
 				// the ingredient: a confirmed record and a copy in the keeper's unconfirmed map at once
 				g.count("obs:record-and-unconfirmed-copy:" + [3]string{"not-on-chain", "immature-or-locked", "spendable"}[st])
 			}
-			if (o.Find == nil && o.Reserve == nil) || usableConfirmed[o.ID] {
+			if (o.Find == nil && o.Reserve == nil && o.Amount == nil) || usableConfirmed[o.ID] {
 				continue
 			}
 			switch st {
@@ -1057,6 +1087,46 @@ func RunCase(e *Env, c *Case, base string) (*Result, error) {
 				if u := o.Find; u != nil && u.Vote != nil {
 					// not judged (see the report): a vote output that only the pool knows is offered for a veto
 					g.count("obs:unconfirmed-offer-not-on-chain-is-vote-output")
+				}
+				// ---- C25 / C26: what is offered or reserved exists: an unspent output of the wallet's chain, or
+				// an output of a transaction that is in the node's pool right now.  Judged when the wallet has
+				// handled every message the pool has posted (a late removal message explains a stale copy).
+				pooled := false
+				for _, tx := range creator[o.ID] {
+					pooled = pooled || wn.N.Pool.IsTransactionInPool(&tx.ID)
+				}
+				switch {
+				case pooled:
+					g.count("obs:unconfirmed-offer-created-by-pooled-transaction")
+				case wn.QueuedBatches() > 0:
+					g.count("obs:unconfirmed-offer-gone-while-pool-messages-pending")
+				default:
+					what := "an output no transaction of the case creates"
+					if e := view.Entries[o.ID]; e != nil && e.Spent {
+						what = "an output that a block of the wallet's chain has spent"
+					} else if creator[o.ID] != nil {
+						what = "an output whose transaction is neither on the wallet's chain nor in the pool"
+					}
+					for _, tx := range creator[o.ID] {
+						if perr := wn.N.Pool.GetErrCache(&tx.ID); perr != nil {
+							what += fmt.Sprintf("; the pool has refused its transaction: %v", perr)
+						}
+					}
+					var how []string
+					if o.Find != nil {
+						how = append(how, "findUtxos lists it")
+					}
+					if o.Amount != nil {
+						how = append(how, "Reserve (by amount) holds it")
+					}
+					if o.Reserve != nil {
+						how = append(how, "ReserveParticular reserves it")
+					}
+					msg := fmt.Sprintf("class=spent-or-unknown-output-offered: after delivery %d, all pool messages handled, with useUnconfirmed=true %s: output %d, %s (wallet record: %v, copy in the unconfirmed map: %v, node height %d, wallet in step with the node: %v)", di, strings.Join(how, ", "), lab.outs[o.ID], what, o.InDB, o.InMap, d.Height, d.Synced)
+					fail25("%s", msg)
+					if o.Amount != nil || o.Reserve != nil {
+						fail26("%s", msg)
+					}
 				}
 			case 2:
 				g.count("obs:unconfirmed-offer-spendable")
@@ -1153,6 +1223,9 @@ func RunCase(e *Env, c *Case, base string) (*Result, error) {
 		// ---- "pool" stream: transactions of the block reach the node's pool before the block does
 		if poolKind && len(cur) > 0 && g.blocks[l].parent == cur[len(cur)-1] {
 			for _, tx := range g.blocks[l].info.Block.Transactions[1:] {
+				if scripted && di > 0 {
+					continue // only the first block's transactions go through the pool
+				}
 				if !scripted && !r2.Chance(65) {
 					continue
 				}
@@ -1178,7 +1251,7 @@ func RunCase(e *Env, c *Case, base string) (*Result, error) {
 		}
 		wn.CollectPoolMsgs()
 		if scripted {
-			if di >= 3 {
+			if di >= lagUntil {
 				err = forward(-1)
 			}
 		} else if poolKind {
@@ -1244,6 +1317,16 @@ func RunCase(e *Env, c *Case, base string) (*Result, error) {
 		forceFresh := di == len(g.order)-1 || (rescanned && fresh < 5)
 		rescanned = false
 		if err := observe(di, d, forceFresh); err != nil {
+			return nil, err
+		}
+	}
+	if poolKind && wn.QueuedBatches() > 0 {
+		// the wallet catches up with the pool's messages: one more look at the settled state
+		if err := forward(-1); err != nil {
+			return nil, err
+		}
+		g.count("pool:final-observation-after-all-messages")
+		if err := observe(len(g.order)-1, Deliv{Block: -1, Height: wn.N.Chain.BestBlockHeight()}, false); err != nil {
 			return nil, err
 		}
 	}
